@@ -8,11 +8,11 @@ open TF TF.Engine TF.Spec
 
 /-! ### `FieldRef` equality, prefixes -/
 
-theorem fieldRefEq_iff {a b : FieldRef} : fieldRefEq a b = true ↔ a = b := by
-  cases a <;> cases b <;> simp [fieldRefEq, and_assoc]
+theorem fieldRefEq_iff {a b : FieldRef} : IRWF.fieldRefEq a b = true ↔ a = b := by
+  cases a <;> cases b <;> simp [IRWF.fieldRefEq, and_assoc]
 
-theorem refMem_iff {r : FieldRef} {l : List FieldRef} : refMem r l = true ↔ r ∈ l := by
-  simp only [refMem, List.any_eq_true, fieldRefEq_iff]
+theorem refMem_iff {r : FieldRef} {l : List FieldRef} : IRWF.refMem r l = true ↔ r ∈ l := by
+  simp only [IRWF.refMem, List.any_eq_true, fieldRefEq_iff]
   constructor
   · rintro ⟨x, hx, rfl⟩; exact hx
   · intro h; exact ⟨r, h, rfl⟩
